@@ -68,6 +68,16 @@ def key_once_analysis(P):
     return results, entry, ensures
 
 
+
+def ck_has_violation(ck, rule):
+    """Has an obligation of `rule` already been decided as violated in this run?"""
+    for o in getattr(ck, "obligations", getattr(ck, "obs", [])):
+        r_ = o.get("rule") if isinstance(o, dict) else getattr(o, "rule", None)
+        ok_ = o.get("ok", o.get("holds")) if isinstance(o, dict) else getattr(o, "ok", None)
+        if r_ == rule and ok_ is False:
+            return True
+    return False
+
 def run(ck, P):
     X = Ctx(P)
     cg = X.cg
@@ -272,7 +282,34 @@ def run(ck, P):
         facts = X.facts(md, ev)
         if has(facts, *EQ("c->state", IDLE)):
             idle_atom = EQ("c->state", IDLE)
-    ck.need(idle_atom is not None, "auto-release in mod_deregister is no longer guarded by the context state (rule needs re-reading)")
+    if idle_atom is None:
+        # Is the decision still there, but taken too early?  A local that holds the test of the context (state / population) and is
+        # defined before a call that can run a user callback (stop() -> on_stop()) describes the context as it was before that callback:
+        # the hook may register a successor module, start a loop, ...  That is a violation, not a lost anchor.
+        ucb = X.usercb_set()
+        cd0 = md.control_deps()
+        stale = None
+        for ev in autos:
+            for b_ in cd0.get(ev.block.id, ()):
+                t_ = md.blocks[b_].term
+                if not t_ or t_.get("cond") is None:
+                    continue
+                names = {a_ for (a_, _p) in atoms(t_["cond"], True)}
+                for d in md.events():
+                    if d.kind in ("decl", "assign") and d.lhs is not None and d.rhs is not None and S(d.lhs) in names \
+                            and ("->state" in S(d.rhs) or "m_map_len(" in S(d.rhs) or "m_ctx_len(" in S(d.rhs)):
+                        mid = [k for k in md.events() if k.kind == "call" and X.cg.event_may_reach(k, ucb)
+                               and rules.may_precede(md, d, k) and rules.may_precede(md, k, ev)]
+                        if mid:
+                            stale = (S(d.lhs), d.line, mid[0])
+        if stale:
+            ck.ob("C07.3-NO-REENTRY", md.site("release decided after the last callback"), False,
+                  "the automatic release at line %d is decided by '%s', computed at line %d BEFORE %s (line %d) can run the module's "
+                  "on_stop() hook: a hook that registers a successor module (or starts a loop) leaves a context that is no longer empty "
+                  "and idle, and it is released all the same — the new module becomes a ZOMBIE and the thread loses its context"
+                  % (autos[0].line, stale[0], stale[1], stale[2].callee or "an indirect call", stale[2].line))
+    ck.need(idle_atom is not None or ck_has_violation(ck, "C07.3-NO-REENTRY"),
+            "auto-release in mod_deregister is no longer guarded by the context state (rule needs re-reading)")
 
     def step_state(st, ev):
         if ev.kind == "assign" and S(ev.lhs).endswith("->state") and strip(ev.lhs).get("rec") == "_ctx":
